@@ -10,7 +10,7 @@ PROP = {
             'append(parent, detached subtree) / appendAfter(parent, detached subtree, sibling) / detach / free(leaf, attached '
             'or detached) / free of an object that still has children (must panic) / create+append / chain (up to 100 '
             'nested scopes) on a tree whose index 0 is the root; names come from a 5-name alphabet '
-            '{AAAA,_B0_,C1__,ZZ9Z,____} so collisions and shadowing are common; kinds are 4 named, 5 not-named opcodes and the '
+            '{AAAA,AAAB,A0AA,_AAA,__9_} (some differ in one byte only) so collisions and shadowing are common; kinds are 4 named, 5 not-named opcodes and the '
             'Scope directive. A reference tree (parent + ordered child slice per slot) is updated alongside; after EVERY '
             'primitive operation every slot is compared (parentIndex, first/lastArgIndex, prev/next of every child, no sibling '
             'links without a parent), the tree is walked from the root forwards and backwards (must visit exactly the attached '
